@@ -176,6 +176,9 @@ var c13Specs = map[string]c13Spec{
 	"BuildNGReset": {class: 1, code: 20, msgCrit: -1, call: func(a c13Action) (*ngapType.NGAPPDU, []byte, error) {
 		return fromPDU(ngapTestpacket.BuildNGReset(nil))
 	}},
+	"BuildNGReset(partial)": {class: 1, code: 20, msgCrit: -1, call: func(a c13Action) (*ngapType.NGAPPDU, []byte, error) {
+		return fromPDU(ngapTestpacket.BuildNGReset(c13ResetList(a)))
+	}},
 	"BuildNGResetAcknowledge": {class: 2, code: 20, msgCrit: -1, call: func(a c13Action) (*ngapType.NGAPPDU, []byte, error) {
 		return fromPDU(ngapTestpacket.BuildNGResetAcknowledge())
 	}},
@@ -476,6 +479,40 @@ func genC13(t *rapid.T) c13Case {
 }
 
 // inRange: are all arguments this builder consumes inside their ASN.1 ranges?
+// c13ResetList: the UE-associated logical NG-connections of a partial NG RESET, from the action's arguments: item k
+// names a connection by both ids, by the AMF-UE-NGAP-ID alone or by the RAN-UE-NGAP-ID alone (both are OPTIONAL in
+// UE-associatedLogicalNG-connectionItem), as PduIDs[k] mod 3 says.
+func c13ResetList(a c13Action) *ngapType.UEAssociatedLogicalNGConnectionList {
+	kinds := a.PduIDs
+	if len(kinds) == 0 {
+		kinds = []int64{a.PduID}
+	}
+	l := &ngapType.UEAssociatedLogicalNGConnectionList{}
+	mod := func(x, m int64) int64 { return ((x % m) + m) % m }
+	for k, kind := range kinds {
+		it := ngapType.UEAssociatedLogicalNGConnectionItem{}
+		if mod(kind, 3) != 2 {
+			it.AMFUENGAPID = &ngapType.AMFUENGAPID{Value: mod(a.Amf+int64(k)*7, 1<<40)}
+		}
+		if mod(kind, 3) != 1 {
+			it.RANUENGAPID = &ngapType.RANUENGAPID{Value: mod(a.Ran+int64(k)*5, 1<<32)}
+		}
+		l.List = append(l.List, it)
+	}
+	return l
+}
+
+func c13ItemString(it ngapType.UEAssociatedLogicalNGConnectionItem) string {
+	o := "{"
+	if it.AMFUENGAPID != nil {
+		o += fmt.Sprintf("amf %d", it.AMFUENGAPID.Value)
+	}
+	if it.RANUENGAPID != nil {
+		o += fmt.Sprintf(" ran %d", it.RANUENGAPID.Value)
+	}
+	return o + "}"
+}
+
 func c13InRange(a c13Action, s c13Spec) bool {
 	if s.amf && (a.Amf < 0 || a.Amf > 1<<40-1) {
 		return false
@@ -732,6 +769,25 @@ func c13Check(a c13Action, s c13Spec, announced []byte) (key string, err error) 
 		for _, x := range c.pdu {
 			if x != a.PduID {
 				return "pdu-id:" + a.Builder, fmt.Errorf("%s: PDU session id on the wire %d, argument %d", a.Builder, x, a.PduID)
+			}
+		}
+	}
+	if a.Builder == "BuildNGReset(partial)" {
+		want := c13ResetList(a)
+		var got *ngapType.UEAssociatedLogicalNGConnectionList
+		for _, ie := range d.InitiatingMessage.Value.NGReset.ProtocolIEs.List {
+			if ie.Id.Value == ngapType.ProtocolIEIDResetType && ie.Value.ResetType != nil {
+				got = ie.Value.ResetType.PartOfNGInterface
+			}
+		}
+		if got == nil || len(got.List) != len(want.List) {
+			return "reset-list:" + a.Builder, fmt.Errorf("%s: the message does not carry the %d connections of the argument (%+v)", a.Builder, len(want.List), got)
+		}
+		for k := range want.List {
+			w, g := want.List[k], got.List[k]
+			if (w.AMFUENGAPID == nil) != (g.AMFUENGAPID == nil) || (w.RANUENGAPID == nil) != (g.RANUENGAPID == nil) ||
+				(w.AMFUENGAPID != nil && w.AMFUENGAPID.Value != g.AMFUENGAPID.Value) || (w.RANUENGAPID != nil && w.RANUENGAPID.Value != g.RANUENGAPID.Value) {
+				return "reset-item:" + a.Builder, fmt.Errorf("%s: connection %d on the wire is %s, the argument named %s", a.Builder, k, c13ItemString(g), c13ItemString(w))
 			}
 		}
 	}
